@@ -1,3 +1,4 @@
 pub mod eval;
 pub mod isa;
 pub mod layout;
+pub mod expand;
